@@ -448,6 +448,45 @@ contract(
     canaries={"strictly": f"all({_LAST}.baseGlyphs.glyphs[k] < {_LAST}.baseGlyphs.glyphs[k + 1] for k in range(len({_LAST}.baseGlyphs.glyphs) - 1))"},
 )
 
+# the caret part: one LigatureCaretByPos statement per glyph of the context's caret dict, in its order, after what the block held before
+# (to un-park: the attribute `glyphs` is a GlyphName NODE here and a list of names in GlyphClass — it needs a node class of its own for the caret statement)
+_LC = "self.context.ligatureCarets"
+_KC = f"list({_LC})"
+_ST = f"{_BLK}.statements"
+_CS_K = f"{_ST}[len({_ST}) - len({_KC}) + k]"
+# PARKED (`props=[]`): the engine's encoding of the object-valued comprehension `[ast.LigatureCaretByPosStatement(ast.GlyphName(n), c) for n, c in d.items()]`
+# makes every element the SAME new node and records no field of it (notes/C18.requests.md item 14): the element clause below is not provable (and
+# nothing about the elements should be trusted).  The three clauses about the block's length and the user's statements are discharged.
+contract(
+    "ufo2ft.featureWriters.gdefFeatureWriter:GdefFeatureWriter._write",
+    name="carets",
+    **{**_WRITE_COMMON, "props": [], "requires": [
+        "not fresh(self.context.gdefTableBlock)",
+        f"'{G}' not in self.context.todo and '{L}' in self.context.todo",
+        "implies(self.context.gdefTableBlock, self.context.gdefTableBlock.kind == 'TableBlock')",
+    ]},
+    locals={"ligatureCarets": List(Ref(NODE))},
+    ensures={
+        "returns-true": "result",
+        # the LAST len(ligatureCarets) statements of the GDEF block: glyph k of the caret dict (in its order) with exactly its caret positions
+        "one-statement-per-glyph": f"len({_ST}) >= len({_KC})",
+        "caret-statements": f"all({_CS_K}.kind == 'LigatureCaretByPosStatement' and {_CS_K}.glyphs.kind == 'GlyphName' and {_CS_K}.glyphs.glyph == {_KC}[k]"
+        f" and {_CS_K}.carets == {_LC}[{_KC}[k]] for k in range(len({_KC})))",
+        # additive: a user-written GDEF block keeps its statements, in order, in front
+        "user-gdef-kept": f"implies(self.context.gdefTableBlock, len({_ST}) == len(old(self.context.gdefTableBlock.statements)) + len({_KC})"
+        " and all(self.context.gdefTableBlock.statements[u] == old(self.context.gdefTableBlock.statements)[u] for u in range(len(old(self.context.gdefTableBlock.statements)))))",
+        "new-gdef-appended": f"implies(not self.context.gdefTableBlock, {_BLK}.kind == 'TableBlock' and {_BLK}.name == 'GDEF' and len({_ST}) == len({_KC}))",
+    },
+    merge_branches=False,
+    hints={"gdefTableBlock.statements.extend(ligatureCarets)": [
+        f"len(ligatureCarets) == len({_KC})",
+        f"all(allocated(ligatureCarets[k]) and ligatureCarets[k].kind == 'LigatureCaretByPosStatement' and ligatureCarets[k].glyphs.kind == 'GlyphName' and ligatureCarets[k].glyphs.glyph == {_KC}[k]"
+        f" and ligatureCarets[k].carets == {_LC}[{_KC}[k]] for k in range(len({_KC})))",
+        f"all(gdefTableBlock.statements[len(gdefTableBlock.statements) - len({_KC}) + k] == ligatureCarets[k] for k in range(len({_KC})))",
+    ]},
+    canaries={"no-carets": f"len({_KC}) == 0"},
+)
+
 # =====================================================================================================================
 # ast.makeLookupFlag (the two literal shapes the curs writer uses) and CursFeatureWriter._makeCursiveLookup
 
